@@ -159,7 +159,17 @@ class _Run:
             out_cls = case.message_class(md.output_type)
             in_cls = case.message_class(md.input_type)
             ns[pyname] = self._handler(sd, md, in_cls, out_cls)
-        return type(f"Sim{base_cls.__name__}", (base_cls,), ns)()
+        impl = type(f"Sim{base_cls.__name__}", (base_cls,), ns)
+        if self.tape.draw(3, "earlier-instance-of-the-same-class") == 2:
+            # a service class is instantiated more than once in a process (tests, one server after another, two
+            # servers side by side): an object built - and asked for its routes - EARLIER must not serve this one's calls
+            decoy = impl()
+            decoy._sim_tag = "decoy"
+            decoy.__mapping__()
+            self.stats["probe:second-instance-of-the-service-class"] += 1
+        real = impl()
+        real._sim_tag = "served"
+        return real
 
     def _handler(self, sd, md: gen.MethodDesc, in_cls, out_cls):
         run = self
@@ -179,7 +189,8 @@ class _Run:
 
         if md.server_streaming and md.client_streaming:
             async def h(self, request):
-                inv = dict(route=md.route, svc=sd.name, reqs=[], produced=0, matched=False, at=run.loop.time())
+                inv = dict(route=md.route, svc=sd.name, reqs=[], produced=0, matched=False, at=run.loop.time(),
+                           by=getattr(self, "_sim_tag", "served"))
                 run.invocations.append(inv)
                 got = []
                 async for r in request:
@@ -199,7 +210,8 @@ class _Run:
             return h
         if md.server_streaming:
             async def h(self, request):
-                inv = dict(route=md.route, svc=sd.name, reqs=[], produced=0, matched=False, at=run.loop.time())
+                inv = dict(route=md.route, svc=sd.name, reqs=[], produced=0, matched=False, at=run.loop.time(),
+                           by=getattr(self, "_sim_tag", "served"))
                 run.invocations.append(inv)
                 record([request], inv)
                 plan = Plan(md, out_cls, inv["reqs"])
@@ -213,7 +225,8 @@ class _Run:
             return h
 
         async def h(self, request):
-            inv = dict(route=md.route, svc=sd.name, reqs=[], produced=0, matched=False, at=run.loop.time())
+            inv = dict(route=md.route, svc=sd.name, reqs=[], produced=0, matched=False, at=run.loop.time(),
+                           by=getattr(self, "_sim_tag", "served"))
             run.invocations.append(inv)
             reqs = await collect(request)
             record(reqs, inv)
@@ -594,6 +607,11 @@ class _Run:
 
     # ---- oracle ----------------------------------------------------------------------------------
     def _oracle(self):
+        for inv in self.invocations:
+            if inv.get("by") != "served":
+                raise Violation("C11.H1", "handled-by-another-instance",
+                                f"{inv['route']}: the call was handled by another object of the service class (one created "
+                                f"earlier and only asked for its routes), not by the instance the server was given")
         strict, relaxed = [], []
         for c in self.calls:
             if c.outcome == "not-started":
